@@ -10,7 +10,8 @@ Case shapes (all JSON-able, see lean/Glom/Driver/C19.lean):
   * channel mode (`req` + `vias`): ONE request — spec text, target text, flags — delivered through
     several pairs of channels in one case; the observation is the list of outcomes (`impl_vias`) and
     the property includes that they are all the same;
-  * `stdin_open: false` (a closed standard input), `proc: true` (run as a child process)."""
+  * `stdin_state`: 'open' | 'closed' (sys.stdin.close()) | 'absent' (sys.stdin is None: fd 0 closed, `<&-`);
+    `proc: true` (run as a child process)."""
 import ast
 import contextlib
 import io
@@ -24,7 +25,7 @@ PROP = 'C19'
 LEAN_MODULES = ['Glom.Props.C19']
 FACT_FILES = ['C19Facts', 'c19']
 READY = True
-THEOREMS_PER_MODULE = {'Glom.Props.C19': 21}
+THEOREMS_PER_MODULE = {'Glom.Props.C19': 22}
 MANIFEST = dict(
     text="PARTIAL proof. Lean 4 theorems over a code-shaped model of glom/cli.py AS A FUNCTION OF THE RAW ARGUMENT LIST, "
          "the files and standard input: face's parser (flag-name normalisation, `--flag=value` / `--flag value`, flags "
@@ -113,14 +114,51 @@ RULE = ('type-directed: a JSON-representable target (nested dicts/lists/strings/
         'as bytes that are UTF-8, as a directory; plus a corpus of hostile spec texts (calls, attribute access, '
         'lambdas, comprehensions, f-strings, dunder tricks), each planting a marker file, delivered by argument and '
         'by files named *.glom / *.py / *.PY / *.json / *.yml. non-trivial = the property speaks about the case '
-        '(result / GlomError / target usage error / malformed spec); distinct = distinct (argv, files, stdin)')
+        '(result / GlomError / target usage error / malformed spec / unserialisable result); distinct = distinct (argv, files, stdin). '
+        'ADDED after the audit: standard input CLOSED or ABSENT (None) without --debug, in-process and `<&-` as a process; values '
+        'outside / at the edge of JSON per format (dates, times, bytes, sets, complex, Ellipsis, mixed-type / tuple / None keys, '
+        'NaN, infinities, 1e999) whole or as a leaf, with and without --scalar; specs with non-spec leaves, list specs on scalars, '
+        '[] — GlomError classes beyond PathAccessError; spec texts with a trailing newline / leading blank by file and argument; '
+        'bare-word attribute walks (dunders, methods) on scalars and containers; negative --indent; the spec file being '
+        '/dev/stdin (process); the GlomError line is compared in full')
 TRUSTED = ['externals (parsers, literal_eval, repr, int, dumps, glom.glom, Inspect, is_scalar, shlex, the help formatter) '
            'enter the model as tables computed by the harness with the real functions',
            'face 24.0\'s parser is modelled by hand (Model/C19Face.lean), its option table extracted']
-ASSUMPTIONS = ['standard input decodes strictly as UTF-8 (a UTF-8 locale; under the C locale CPython reads it with '
+READINGS = [
+    'an EMPTY target text (an empty argument, file or standard input) and NO target at all (nothing given, standard input '
+    'a terminal) are "no target": the empty dict {} — by design (glom\'s own test_cli_blank: `glom` alone prints {}); a '
+    'blank text (" ", "\\n") is NOT empty: a malformed document, a usage error; likewise no / an empty spec text is the '
+    'identity spec',
+    'the command prints what json.dumps can print: for a result outside JSON\'s data model (a date / time from YAML or '
+    'TOML, bytes, a set, a complex, Ellipsis, a class or a bound method reached by an attribute path, dict keys of '
+    'mixed types under sort_keys, tuple keys) the exception of json.dumps (TypeError) ends the command with a traceback '
+    'and status 1 — expected and checked as exactly that (branch unserialisable-*); NaN and the infinities are printed '
+    'the way json.dumps prints them (NaN, Infinity)',
+    'the spec IS the text that is given: a spec file that ends in a newline holds another text than the same words as '
+    'an argument ("a.b\\n" is the path a → "b\\n"; a literal still parses; a leading blank or newline makes a literal a '
+    'path string) — channel equivalence is about IDENTICAL texts',
+    'the spec arrives by argument or by file; the CLI has no option that reads it from standard input (a spec file that '
+    'IS the standard input, --spec-file /dev/stdin, is a file like any other and is exercised as a process)',
+    'a default-format spec that is a bare word is taken as a PATH, and glom\'s path access reads attributes: '
+    '`__class__.__name__` on 5 prints "int".  That is access, not execution: nothing is called, no side effect; such '
+    'specs are expected to print what the library computes (or to end in json.dumps\' TypeError)',
+    'a non-GlomError exception out of the library call (branch lib-other-*) and --spec-format python-full / an '
+    'undocumented format name / --debug / --inspect / spec or target given twice are outside the statement: the '
+    'reference is silent there, the complete decision table (refMain, c19_main_total) is not',
+]
+ASSUMPTIONS = [
+    'environment: GLOM_CLI_DEBUG and GLOM_DEBUG are not set (console_main prints sys.argv and enters pdb under the first, '
+    'glom.glom re-raises raw exceptions under the second); the standard streams are UTF-8 with strict error handling '
+    '(PYTHONIOENCODING=latin-1 decodes standard input differently from a file; the C locale reads it with '
+    'surrogateescape) — the process cases run with PYTHONIOENCODING=utf-8:strict and those variables removed',
+    'standard output can encode what is printed: --scalar prints str(result) raw, a lone surrogate in it is a '
+    'UnicodeEncodeError of print() — outside the statement; generated strings hold no surrogates',
+    'arguments hold no NUL character (the OS cannot pass one to a process; in-process, open("a\\0b") raises a ValueError '
+    'that is neither OSError nor UnicodeError)','standard input decodes strictly as UTF-8 (a UTF-8 locale; under the C locale CPython reads it with '
                'surrogateescape and every byte string is text)',
                'the interactive debugger of --debug / --inspect is not driven (replaced by a marker line)',
                'flagfile nesting + lines stay below the model bound (4096 steps)']
+ASSUMPTIONS += ['READING: ' + r for r in READINGS]
 
 TMP = '/tmp/c19_%d' % os.getpid()
 T = '@T'
@@ -145,6 +183,18 @@ class Ids:
 
 
 MROS = {}      # class name -> names of its MRO, for every class an external raised on this case
+
+
+ADDR = __import__('re').compile(r' at 0x[0-9a-fA-F]+')
+
+
+def canon_text(s):
+    """the text of an observation: the scratch directory and object addresses made run-independent"""
+    return ADDR.sub(' at 0x?', s.replace(TMP, T))
+
+
+def stdin_state(case):
+    return case.get('stdin_state') or 'open'
 
 
 def try_call(f, *a):
@@ -304,9 +354,9 @@ def oracle(case, raw=None, more_targets=(), more_specs=()):
                                                   errors='strict').read())
         stdin_text = v if st == 'ok' else ''
         ext['stdin_text'], ext['stdin_err'] = (v, None) if st == 'ok' else (None, v)
-    if case.get('stdin_open') is False:
-        ext['stdin_text'], ext['stdin_err'] = None, 'ValueError'       # read() of a closed file
-        MROS['ValueError'] = ['ValueError', 'Exception', 'BaseException']
+    # a closed / absent standard input: the classes its use raises are the model's; their MROs are Python's
+    for cls in (ValueError, AttributeError):
+        MROS[cls.__name__] = [c.__name__ for c in cls.__mro__ if c is not object]
     ids = Ids()
     loaders = {'json': json.loads, 'python-literal': ast.literal_eval}
     try:
@@ -382,7 +432,7 @@ def oracle(case, raw=None, more_targets=(), more_specs=()):
     results = {}
     if av.get('debug') or av.get('inspect'):
         dbg, insp = bool(av.get('debug')), bool(av.get('inspect'))
-        is_open = case.get('stdin_open') is not False
+        is_open = stdin_state(case) == 'open'
         flags = [insp, insp, insp and is_open, dbg and is_open]
         for si, sp in list(specs.items()):
             w = glom.Inspect(sp, echo=flags[0], recursive=flags[1], breakpoint=flags[2], post_mortem=flags[3])
@@ -396,7 +446,7 @@ def oracle(case, raw=None, more_targets=(), more_specs=()):
                 with contextlib.redirect_stdout(buf):
                     r = glom.glom(t, s)
             except glom.GlomError as ge:
-                ext['glom'].append([ti, si, {'glomerror': [type(ge).__name__, '']}])
+                ext['glom'].append([ti, si, {'glomerror': [type(ge).__name__, canon_text(str(ge))]}])
             except BaseException as e:
                 ext['glom'].append([ti, si, {'other': type(e).__name__}])
             else:
@@ -404,7 +454,7 @@ def oracle(case, raw=None, more_targets=(), more_specs=()):
                 results[ri] = r
                 ext['glom'].append([ti, si, {'ok': ri}])
             if buf.getvalue():
-                ext['printed'].append([ti, si, buf.getvalue().replace(TMP, T)])
+                ext['printed'].append([ti, si, canon_text(buf.getvalue())])
     for ri, r in results.items():
         for ind in dict.fromkeys(indents):
             st, v = try_call(lambda: json.dumps(r, indent=ind, sort_keys=True))
@@ -413,8 +463,11 @@ def oracle(case, raw=None, more_targets=(), more_specs=()):
             s = str(r)
         except Exception:
             s = '<str-raises>'
-        ext['scalar'].append([ri, bool(is_scalar(r)), s.replace(TMP, T)])
+        ext['scalar'].append([ri, bool(is_scalar(r)), canon_text(s)])
     ext['mro'] = sorted([k, v] for k, v in MROS.items())
+    ext.setdefault('help', None)
+    ext.setdefault('flagfile', [])
+    ext.setdefault('abspath', [])
     return ext
 
 
@@ -425,6 +478,8 @@ class FakeStdin(io.StringIO):
         self._tty = tty
 
     def isatty(self):
+        if self.closed:
+            raise ValueError('I/O operation on closed file')
         return self._tty
 
 
@@ -435,6 +490,8 @@ class ByteStdin(io.TextIOWrapper):
         self._tty = tty
 
     def isatty(self):
+        if self.closed:
+            raise ValueError('I/O operation on closed file')
         return self._tty
 
 
@@ -460,6 +517,8 @@ def write_files(case):
     shutil.rmtree(TMP, ignore_errors=True)
     os.makedirs(TMP)
     for p, c in case['files']:
+        if not p.startswith(T):
+            continue                      # a device (/dev/stdin): nothing to write
         if isinstance(c, dict) and c.get('dir'):
             os.makedirs(real(p))
         elif isinstance(c, dict):
@@ -477,14 +536,18 @@ def run_cli(case, raw):
     marker = os.path.join(TMP, 'MARK')
     so, se = io.StringIO(), io.StringIO()
     old_in = sys.stdin
-    sys.stdin = make_stdin(case)
-    if case.get('stdin_open') is False:
-        sys.stdin.close()
+    st = stdin_state(case)
+    if st == 'absent':
+        sys.stdin = None                  # what Python gives a process started with fd 0 closed
+    else:
+        sys.stdin = make_stdin(case)
+        if st == 'closed':
+            sys.stdin.close()
     try:
         with contextlib.redirect_stdout(so), contextlib.redirect_stderr(se), no_debugger():
             try:
                 rc = cli.main([real(x) for x in raw])
-                outcome = {'exit': [int(rc or 0), so.getvalue().replace(TMP, T)]}
+                outcome = {'exit': [int(rc or 0), canon_text(so.getvalue())]}
             except UsageError as ue:
                 # a usage error: non-zero status and NO result on standard output
                 if so.getvalue():
@@ -498,7 +561,7 @@ def run_cli(case, raw):
                 outcome = {'cli': True} if (not so.getvalue() and ce.code not in (0, None)) \
                     else {'exc': '<command-line-error-with-output-or-status-0>'}
             except SystemExit as e:
-                outcome = {'exit': [e.code if isinstance(e.code, int) else 1, so.getvalue().replace(TMP, T)]}
+                outcome = {'exit': [e.code if isinstance(e.code, int) else 1, canon_text(so.getvalue())]}
             except BaseException as e:
                 outcome = {'exc': type(e).__name__}
     finally:
@@ -514,6 +577,15 @@ def raw_of(case):
 
 def run_impl(case):
     out = dict(case)
+    out['stdin_state'] = stdin_state(case)
+    out.setdefault('hostile', False)
+    if isinstance(out.get('argv'), dict):
+        av = dict(out['argv'])
+        for k in ('debug', 'inspect', 'scalar'):
+            av[k] = bool(av.get(k))
+        for k in ('target_file', 'target_format', 'spec_file', 'spec_format', 'indent'):
+            av.setdefault(k, None)
+        out['argv'] = av
     try:
         if case.get('vias'):
             return run_channels(case, out)
@@ -576,11 +648,18 @@ def run_process(case, raw):
     import subprocess
     repo = os.environ.get('GLOM_REPO', '/repo')
     data = file_bytes(case['stdin']) if isinstance(case['stdin'], dict) else real(case['stdin']).encode('utf-8')
+    # ASSUMPTIONS: no GLOM_CLI_DEBUG / GLOM_DEBUG in the environment, standard streams in strict UTF-8
     env = dict(os.environ, PYTHONPATH=repo, PYTHONIOENCODING='utf-8:strict', PYTHONDONTWRITEBYTECODE='1')
-    env.pop('GLOM_CLI_DEBUG', None)
-    p = subprocess.run([sys.executable, '-m', 'glom'] + [real(x) for x in raw[1:]], input=data, env=env,
-                       stdout=subprocess.PIPE, stderr=subprocess.PIPE, cwd=TMP, timeout=60)
-    so = p.stdout.decode('utf-8', 'replace').replace(TMP, T)
+    for k in ('GLOM_CLI_DEBUG', 'GLOM_DEBUG', 'PYTHONUTF8', 'PYTHONCOERCECLOCALE'):
+        env.pop(k, None)
+    cmd = [sys.executable, '-m', 'glom'] + [real(x) for x in raw[1:]]
+    if stdin_state(case) == 'absent':       # `python -m glom … <&-`: fd 0 closed before the interpreter starts
+        p = subprocess.run(cmd, env=env, stdout=subprocess.PIPE, stderr=subprocess.PIPE, cwd=TMP, timeout=60,
+                           stdin=None, preexec_fn=lambda: os.close(0))
+    else:
+        p = subprocess.run(cmd, input=data, env=env, stdout=subprocess.PIPE, stderr=subprocess.PIPE, cwd=TMP,
+                           timeout=60)
+    so = canon_text(p.stdout.decode('utf-8', 'replace'))
     se = p.stderr.decode('utf-8', 'replace')
     first = (se.strip().splitlines() or [''])[0]
     if p.returncode == 0 or (p.returncode == 1 and so):
@@ -765,7 +844,7 @@ def gen_case(rng):
         tv = 'file'
     if sv == 'argv' and (not st or st[0] == '-'):
         sv = 'file'
-    return assemble(st, tt, sv, tv, fmt, rng.choice([None, None, 0, 1, 2, 4]), rng.random() < 0.25,
+    return assemble(st, tt, sv, tv, fmt, rng.choice([None, None, 0, 1, 2, 4, -1, -3]), rng.random() < 0.25,
                     junk=rng.choice(['', '{"junk": 1}', 'not json']), tty=rng.random() < 0.6,
                     spec_name=rng.choice(SPEC_NAMES))
 
@@ -1468,7 +1547,7 @@ def debug_cases(rng, n):
         c['argv']['debug'] = rng.random() < 0.6
         c['argv']['inspect'] = rng.random() < 0.6 or not c['argv']['debug']
         if rng.random() < 0.4:
-            c['stdin_open'] = False
+            c['stdin_state'] = rng.choice(['closed', 'closed', 'absent'])
         if rng.random() < 0.5:
             c['raw'] = render_raw(rng, c['argv'])
         yield c
@@ -1495,6 +1574,140 @@ def process_cases(rng, n):
 
 
 
+# ------------------------------------------------------------------ standard input open / closed / absent
+def stdin_state_cases(rng, n, procs=0):
+    """a CLOSED standard input (sys.stdin.close(): every use raises ValueError) and an ABSENT one (sys.stdin is
+    None — `glom … <&-`: every use raises AttributeError), WITHOUT --debug: where the target is to come from
+    standard input (`-`, `--target-file -`, nothing given) that is an unreadable target — a usage error —; where
+    it comes by argument or file standard input is not touched"""
+    k = 0
+    for i in range(n):
+        c = gen_case(rng)
+        if rng.random() < 0.25:
+            c = mutate(rng, c)
+        c['stdin_state'] = ['closed', 'absent'][i % 2]
+        if rng.random() < 0.5:
+            c['raw'] = render_raw(rng, c['argv'])
+        if k < procs and c['stdin_state'] == 'absent' and isinstance(c['stdin'], str):
+            c['raw'] = render_raw(rng, c['argv'])
+            c['tty'] = False
+            c['proc'] = True
+            k += 1
+        yield c
+
+
+# ------------------------------------------------------------------ results json.dumps cannot print, odd floats
+SPECIAL_DOCS = {
+    # format -> [(document, specs)]: values of the format's own data model that are no JSON values
+    # (READING: the command prints what json.dumps can print; otherwise json.dumps' exception ends it)
+    'yaml': [('a: 2001-12-14\n', ['a', '()', "{'x': 'a'}"]), ('a: 2001-12-14T21:59:43Z\nb: 1\n', ['a', 'b', '()']),
+             ('a: !!binary aGk=\n', ['a', '()']), ('a: !!set {x, y}\n', ['a', '()']), ('1: 1\na: 2\n', ['()', 'a']),
+             ('a: .nan\nb: .inf\nc: -.inf\n', ['a', 'b', '()']), ('? [1, 2]\n: 3\n', ['()']), ('- 2001-12-14\n- 1\n', ['0', '1', '()']),
+             ('a: 1e999\n', ['a']), ('~: 1\ntrue: 2\n', ['()'])],
+    'toml': [('a = 2001-12-14\n', ['a', '()']), ('a = 07:32:00\nb = 1\n', ['a', 'b', '()']),
+             ('a = 1979-05-27T07:32:00Z\n', ['a', '()']), ('a = nan\nb = inf\nc = -inf\n', ['a', 'b', 'c', '()']),
+             ('a = [2001-12-14, 2001-12-15]\n', ['a.0', '()'])],
+    'python': [("{'a': {1, 2}}", ['a', '()']), ("{'a': b'x'}", ['a', '()']), ("{1: 1, 'a': 2}", ['()', 'a']),
+               ("{'a': 1j}", ['a', '()']), ("{'a': (1, 2)}", ['a', '()']), ("{None: 1, 'a': 2}", ['()']),
+               ("{'a': ...}", ['a']), ("{(1, 2): 3}", ['()']), ("{'a': {'b': frozenset()}}", ['a.b']),
+               ("[1e999, -1e999]", ['()', '0']), ("{True: 1, 2: 2}", ['()']), ("{1.5: 'x', 2: 'y'}", ['()'])],
+    'json': [('{"a": NaN}', ['a', '()']), ('{"a": Infinity, "b": -Infinity}', ['a', 'b', '()']), ('[1e999]', ['0', '()']),
+             ('{"a": 1E400}', ['a']), ('{"a": -0.0, "b": 1e-400}', ['()'])],
+}
+
+
+def special_value_cases(rng, reps=1):
+    """every format x every kind of value outside JSON's data model (dates and times, bytes, sets, complex, Ellipsis,
+    tuple / None / mixed-type keys under sort_keys) or at the edge of it (NaN, the infinities, huge and tiny floats),
+    whole or as a leaf, through a random delivery, with and without --scalar"""
+    for fmt, docs in SPECIAL_DOCS.items():
+        for doc, specs in docs:
+            for _ in range(reps):
+                st = rng.choice(specs)
+                tv = rng.choice(TARGET_VIAS)
+                sv = rng.choice(SPEC_VIAS)
+                yield assemble(st, doc, sv, tv, fmt if fmt != 'json' else rng.choice([None, 'json']),
+                               rng.choice([None, 0, 2, -1]), rng.random() < 0.3, tty=rng.random() < 0.5,
+                               spec_name=rng.choice(SPEC_NAMES))
+
+
+# ------------------------------------------------------------------ GlomErrors other than PathAccessError
+ODD_SPECS = ['["a"]', "['a']", '{"a": 1}', "{'a': None}", '(1,)', '{1, 2}', '[]', '[[]]', "[['a']]", "{'a': [1]}", '("a", 5)',
+             "{'x': ('a', ['b'])}", "('a', [])", '[()]', '{"a": {"b": 2.5}}', "{'a': ('b', 'c', 7)}", '{"a": true}', '[1]']
+ODD_TARGETS = ['5', '"x"', 'null', 'true', '[1]', '[]', '{"a": 5}', '{"a": [1, 2]}', '{"a": {"b": "x"}}', '1.5', '[[1], [2]]']
+
+
+def odd_spec_cases(rng, n):
+    """specs with leaves that are no specs (numbers, None, sets), list specs on scalars, `[]` on anything: the
+    GlomError classes beyond PathAccessError (UnregisteredTarget, GlomError.wrap(TypeError / IndexError), BadSpec …)"""
+    for i in range(n):
+        st, tt = rng.choice(ODD_SPECS), rng.choice(ODD_TARGETS)
+        yield assemble(st, tt, rng.choice(SPEC_VIAS), rng.choice(TARGET_VIAS), rng.choice([None, 'json', 'python' if 'null' not in tt and 'true' not in tt else 'json']),
+                       rng.choice([None, 0, 2]), rng.random() < 0.2, tty=rng.random() < 0.5, spec_name=rng.choice(SPEC_NAMES))
+
+
+# ------------------------------------------------------------------ the spec IS its text: blanks and newlines around it
+def spec_whitespace_cases(rng, n):
+    """READING: the spec is the text as it is given — a spec FILE that ends in a newline (as editors write it) holds
+    another text than the same words as an argument: a bare path then ends in '\n', a literal still parses; a leading
+    blank or newline makes a literal a path string.  The model must say what the code does for each."""
+    for i in range(n):
+        base = gen_case(rng)
+        tx = texts_of(base)
+        if tx is None:
+            continue
+        st, tt = tx
+        v = rng.choice([st + '\n', st + '\r\n', '\n' + st, ' ' + st, st + ' ', st + '\n\n', '\t' + st, st + '\n'])
+        av = base['argv']
+        if i % 3 == 0:          # the same decorated text through both spec channels and several target channels
+            yield channel_case(rng, v, tt, av['target_format'], av['indent'], av['scalar'],
+                               vias=[['file', 'argv'], ['argv', 'argv'], ['file', 'piped'], ['argv', 'file']], tty=base['tty'])
+        else:
+            yield assemble(v, tt, 'file' if i % 3 == 1 or v[0] == '-' else 'argv', rng.choice(TARGET_VIAS), av['target_format'],
+                           av['indent'], av['scalar'], tty=base['tty'], spec_name=rng.choice(SPEC_NAMES))
+
+
+# ------------------------------------------------------------------ bare words are PATHS: attribute walks
+ATTR_SPECS = ['__class__.__name__', 'a.__class__.__name__', 'a.__class__.__mro__', '__class__.__mro__.1.__name__', 'a.upper',
+              'a.__len__', '__doc__', 'real', 'a.real', 'a.imag', '__class__.__base__', 'a.__class__.__base__.__subclasses__',
+              '__init__.__globals__', 'a.__init__.__self__', 'keys', 'a.bit_length', '__class__.__dict__', 'a.__reduce__',
+              '__sizeof__', 'a.__class__.__init__.__name__', 'numerator', 'a.denominator', '__dir__', 'a.__hash__']
+ATTR_TARGETS = ['5', '{"a": "x"}', '{"a": 5}', '{"a": [1]}', '"x"', '{"a": null}', '{"a": 1.5}', '[1, 2]', '{"a": {"b": 1}}']
+
+
+def attr_walk_cases(rng, n):
+    """a default-format spec that is a bare word is TAKEN AS A PATH, and glom's path access reads attributes: dunder
+    and method names walk the object graph of the target (classes, bound methods, dicts of types).  Nothing is
+    CALLED — no side effect —; what comes out is printed when json.dumps can print it (a name, a docstring), else
+    json.dumps' TypeError ends the command; with --scalar the str() of whatever it is (addresses canonicalised)."""
+    for i in range(n):
+        st, tt = rng.choice(ATTR_SPECS), rng.choice(ATTR_TARGETS)
+        c = assemble(st, tt, rng.choice(SPEC_VIAS), rng.choice(TARGET_VIAS), rng.choice([None, 'json', 'python' if 'null' not in tt else None]),
+                     rng.choice([None, 0, 2]), rng.random() < 0.3, tty=rng.random() < 0.5, spec_name=rng.choice(SPEC_NAMES))
+        yield c
+
+
+def spec_on_stdin_cases(rng, n):
+    """the CLI has no option that reads the SPEC from standard input; the one way is a spec FILE that is the
+    standard input (`--spec-file /dev/stdin`), the target then by argument or file: as a process"""
+    for i in range(n):
+        base = gen_case(rng)
+        tx = texts_of(base)
+        if tx is None or not os.path.exists('/dev/stdin'):
+            continue
+        st, tt = tx
+        c = assemble(st, tt, 'file', rng.choice(['argv', 'file']), base['argv']['target_format'], base['argv']['indent'],
+                     base['argv']['scalar'], tty=False)
+        c['argv']['spec_file'] = '/dev/stdin'
+        c['files'] = [f for f in c['files'] if f[0] != T + '/spec.glom'] + [['/dev/stdin', st]]
+        c['stdin'] = st
+        c['spec_stdin'] = True
+        c['raw'] = render_raw(rng, c['argv'])
+        c['proc'] = True
+        yield c
+
+
+
 def generate(rng, tier, scale, **focus):
     n = (520 if tier == 'quick' else 9000) * scale
     last = None
@@ -1512,10 +1725,16 @@ def generate(rng, tier, scale, **focus):
     yield from normalisation_cases(rng, reps=1 if tier == 'quick' else 6)
     yield from raw_cases(rng, (260 if tier == 'quick' else 5000) * scale)
     yield from debug_cases(rng, (60 if tier == 'quick' else 1200) * scale)
+    yield from stdin_state_cases(rng, (60 if tier == 'quick' else 1200) * scale, procs=0 if focus else (4 if tier == 'quick' else 40))
+    yield from special_value_cases(rng, reps=1 if tier == 'quick' else 8)
+    yield from odd_spec_cases(rng, (40 if tier == 'quick' else 800) * scale)
+    yield from spec_whitespace_cases(rng, (40 if tier == 'quick' else 800) * scale)
+    yield from attr_walk_cases(rng, (40 if tier == 'quick' else 800) * scale)
     yield from malformed_by_class_cases(rng, reps=1 if tier == 'quick' else 4, exhaustive_texts=False)
     yield from unreadable_cases(rng, (36 if tier == 'quick' else 600) * scale)
     if not focus:
         yield from process_cases(rng, 8 if tier == 'quick' else 150)
+        yield from spec_on_stdin_cases(rng, 3 if tier == 'quick' else 40)
         if tier == 'thorough':
             yield from malformed_by_class_cases(rng, exhaustive_texts=True)
         yield from exhaustive(tier)
@@ -1561,7 +1780,7 @@ def corpus():
 
 
 def key(case):
-    return {k: case[k] for k in ('argv', 'raw', 'files', 'stdin', 'tty', 'hostile', 'stdin_open', 'req', 'vias', 'proc')
+    return {k: case[k] for k in ('argv', 'raw', 'files', 'stdin', 'tty', 'hostile', 'stdin_state', 'req', 'vias', 'proc')
             if k in case}
 
 
